@@ -19,7 +19,7 @@ EXPLANATION = (
     "partitioner, NUMA hints, the shared low-priority queue.")
 ASSUMPTIONS = ["thread_pool_base::create_work is implemented by scheduled_thread_pool only", "hints are honoured by the queue selection decided in C01.R7/C19.R4"]
 THOROUGH_CONFIGS = [["-UNDEBUG", "-DPIKA_DEBUG"]]
-FLOORS = {"C10.R1": 2, "C10.R2": 5, "C10.R3": 4, "C10.R4": 8, "C10.R5": 8, "C10.R6": 4, "C10.R7": 1, "C10.R8": 4, "C10.R9": 4, "C10.R10": 2, "C10.R11": 2}
+FLOORS = {"C10.R1": 2, "C10.R2": 5, "C10.R3": 4, "C10.R4": 8, "C10.R5": 8, "C10.R6": 4, "C10.R7": 1, "C10.R8": 4, "C10.R9": 4, "C10.R10": 2, "C10.R11": 2, "C10.R12": 2}
 
 SETV = "pika::execution::experimental::set_value"
 SETE = "pika::execution::experimental::set_error"
@@ -63,6 +63,10 @@ def run(rep, tier):
              "means another thread is enqueuing for the same worker right now (the mutex is held across create_thread / schedule_thread): structurally, no path leads from "
              "'try_lock did not succeed' to 'try the next worker' without waiting for that mutex. Otherwise hinted tasks of a pool that does not steal run - and after a "
              "yield continue - on a neighbouring worker whenever two threads schedule onto one worker at the same time")
+    rep.rule("C10.R12", "K6 (yield_to across pools): this_thread::suspend(.., nextid, ..) hands 'nextid' to the caller's scheduling loop as the thread to run next only when it "
+             "belongs to the caller's own scheduler; the test that decides this compares the scheduler of *nextid* with the scheduler of the calling thread, and on "
+             "inequality nextid is queued on its own scheduler (schedule_thread) and the loop gets no next thread. A test that cannot fail (both sides read from the same "
+             "thread) lets a task of another pool run - and keep running - on the caller's worker")
     rep.rule("C10.R10", "K7 (evaluated): the tasks thread-pool bulk spawns carry the scheduler's own hint when it has one (with_hint(sched, k) | bulk(..): every chunk task is sent "
              "to worker k) and the hint of 'their' worker only when the scheduler has none")
     rep.rule("C10.R9", "K7 (evaluated with a concrete hint): in create_thread / schedule_thread / schedule_thread_last of the queue schedulers a hint of mode 'thread' "
@@ -574,6 +578,54 @@ def run(rep, tier):
                 rep.ok("C10.R11", f, "a worker is passed over only after its PU mutex was obtained (its state decides)")
     if n11 < 2:
         raise AnalysisBroken("C10.R11: only %d try_to_lock tests found in select_active_pu" % n11)
+
+
+    # ---- R12: yield_to keeps a foreign thread on its own scheduler
+    from engine.kinds import expand_locals as _xl12
+    TH12 = facts(rep, lib("threading_base", "src/thread_helpers.cpp"), [r"^pika::this_thread::suspend$"])
+    n12 = 0
+    for fn in TH12.fns:
+        if fn.parent != -1 or not fn.file.endswith("thread_helpers.cpp"):
+            continue
+        nx = [p_["name"] for p_ in fn.params if "thread_id" in (p_.get("type") or "") and "ref" not in (p_.get("type") or "")]
+        if not nx:
+            continue
+        nx = nx[0]
+        ys = [(b, i, e) for b, i, e in fn.all_events() if e.get("k") == "call" and callee_short(e) == "yield" and nx in T(e)]
+        if not ys:
+            continue
+        n12 += 1
+        tests = []
+        for blk in fn.blocks.values():
+            if blk.cond is None:
+                continue
+            txt = T(_xl12(fn, blk.cond))
+            if txt.count("get_scheduler_base()") >= 2:
+                tests.append((blk, txt))
+        ok12 = False
+        why = "there is no test of the next thread's scheduler against the caller's"
+        for blk, txt in tests:
+            ids = []
+            for m_ in re.finditer(r"get_thread_id_data\(", txt):
+                depth, j = 1, m_.end()
+                while j < len(txt) and depth:
+                    depth += {"(": 1, ")": -1}.get(txt[j], 0)
+                    j += 1
+                if txt[j:].startswith("->get_scheduler_base()"):
+                    ids.append(txt[m_.end():j - 1])
+            if nx in ids and any(x != nx for x in ids):
+                ok12 = True
+            else:
+                why = "the test '%s' reads both schedulers from %s - it never looks at the scheduler of '%s'" % (txt[:120], sorted(set(ids)), nx)
+        disp = [e for _, _, e in fn.all_events() if e.get("k") == "call" and callee_short(e) == "schedule_thread" and nx in T(e)]
+        if ok12 and disp:
+            rep.ok("C10.R12", fn, "suspend(.., %s, ..): the next thread is handed to the caller's loop only when it is of the caller's scheduler, else queued on its own" % nx)
+        else:
+            rep.bad("C10.R12", fn, loc_of(ys[0][2]), "foreign-next-thread", "this_thread::suspend hands '%s' to the caller's scheduling loop although %s: yield_to(id) with a thread of another "
+                    "pool runs that thread on the caller's worker, and the foreign loop re-queues it on its own scheduler - work sent to pool B continues on pool A" % (
+                        nx, why if not ok12 else "it is never queued on its own scheduler"))
+    if n12 < 2:
+        raise AnalysisBroken("C10.R12: only %d suspend overloads with a next thread found" % n12)
 
 
 def resume_hint_rules(rep):
